@@ -316,6 +316,8 @@ enum HKind {
     IntSub,
     Reenter(Action),
     WaitFlag(String, u64),
+    /// announce arrival (process-wide counter ARRIVED), then wait for the flag like `wait_flag`
+    ArriveWait(String, u64),
 }
 
 #[derive(Clone)]
@@ -358,6 +360,7 @@ struct Want {
 #[derive(Clone)]
 enum Step {
     SetFlag { flag: String },
+    WaitArrived { n: usize, ms: u64 },
     InvalidUtf8,
     Parse { src: String, want: Want },
     Tokenize { src: String },
@@ -509,6 +512,13 @@ fn parse_handler(j: &J) -> Result<HSpec, E> {
                 Some(v) => as_i64(v, "ms")?,
             };
             HKind::WaitFlag(req_str(j, "flag")?.to_string(), ms.max(0) as u64)
+        }
+        "arrive_wait" => {
+            let ms = match jget(j, "ms") {
+                None => 2000,
+                Some(v) => as_i64(v, "ms")?,
+            };
+            HKind::ArriveWait(req_str(j, "flag")?.to_string(), ms.max(0) as u64)
         }
         "reenter" => {
             let a = req_str(j, "action")?;
@@ -723,6 +733,13 @@ fn parse_step(j: &J) -> Result<Step, E> {
         }
         "reset_counter" => Step::ResetCounter,
         "set_flag" => Step::SetFlag { flag: req_str(j, "flag")?.to_string() },
+        "wait_arrived" => Step::WaitArrived {
+            n: as_i64(req(j, "n")?, "n")?.max(0) as usize,
+            ms: match jget(j, "ms") {
+                None => 3000,
+                Some(v) => as_i64(v, "ms")?.max(0) as u64,
+            },
+        },
         "threads" => {
             let lists = match req(j, "threads")? {
                 J::Arr(a) => {
@@ -1002,6 +1019,14 @@ fn make_handler(spec: &HSpec) -> HFn {
                 reenter(action, &spec.id);
                 Ok(Value::from(7))
             }
+            HKind::ArriveWait(flag, ms) => {
+                ARRIVED.fetch_add(1, Ordering::SeqCst);
+                if wait_flag(flag, *ms) {
+                    Ok(Value::from(7))
+                } else {
+                    Ok(Value::from("timeout"))
+                }
+            }
             HKind::WaitFlag(flag, ms) => {
                 // wait until another thread sets the flag; a timeout is reported in the value
                 if wait_flag(flag, *ms) {
@@ -1016,6 +1041,7 @@ fn make_handler(spec: &HSpec) -> HFn {
 
 // ───────────────────────────── flags (cross-thread waiting) ─────────────────────────────
 
+static ARRIVED: std::sync::atomic::AtomicUsize = std::sync::atomic::AtomicUsize::new(0);
 static FLAGS: Mutex<Vec<String>> = Mutex::new(Vec::new());
 static FLAGS_CV: std::sync::Condvar = std::sync::Condvar::new();
 
@@ -1371,6 +1397,13 @@ fn run_step(step: &Step, in_threads: bool) -> String {
         Step::SetFlag { flag } => {
             set_flag(flag);
             OK.to_string()
+        }
+        Step::WaitArrived { n, ms } => {
+            let deadline = std::time::Instant::now() + Duration::from_millis(*ms);
+            while ARRIVED.load(Ordering::SeqCst) < *n && std::time::Instant::now() < deadline {
+                std::thread::sleep(Duration::from_millis(1));
+            }
+            format!("{{\"kind\":\"ok\",\"arrived\":{}}}", ARRIVED.load(Ordering::SeqCst))
         }
         Step::ResetCounter => {
             COUNTER.store(0, Ordering::SeqCst);
